@@ -557,6 +557,18 @@ func check(prop, tier string) int {
 	}
 	cov["strategies"] = strategies
 	cov["fault_fired"] = faults
+	// completion orders of small batches: reported as a count, not key by key
+	orders := map[string]int{}
+	for k := range probes {
+		if strings.HasPrefix(k, "order/") {
+			parts := strings.Split(k, "/")
+			orders[parts[1]+" "+parts[2]]++
+			delete(probes, k)
+		}
+	}
+	if len(orders) > 0 {
+		cov["distinct_completion_orders_reached"] = orders
+	}
 	cov["probes"] = probes
 	cov["determinism_recheck"] = map[string]int{"reruns": reruns, "mismatches": mismatches}
 	cov["engines"] = perEngine
